@@ -61,6 +61,20 @@ func runTrie(c trieg.Case, r *pb.Rec) error {
 				want = append(want, p)
 			}
 		}
+		held := tr.PrefixSearch(k)
+		heldCopy := make([]string, len(held))
+		for i, x := range held {
+			heldCopy[i] = strings.Clone(x)
+		}
+		for _, k2 := range c.Keys { // later queries must not disturb results handed out earlier
+			tr.FuzzySearch(k2 + k)
+			tr.PrefixSearch(k2)
+		}
+		for i := range held {
+			if held[i] != heldCopy[i] {
+				return fmt.Errorf("PrefixSearch(%q): result %q changed to %q after later queries", k, heldCopy[i], held[i])
+			}
+		}
 		ps := append([]string(nil), tr.PrefixSearch(k)...)
 		sort.Strings(ps)
 		if strings.Join(ps, "\x00|") != strings.Join(want, "\x00|") || len(ps) != len(want) {
